@@ -316,3 +316,16 @@ func checkFraming(dir string, b []byte, wantFrames int) (class, detail string, f
 	}
 	return "", "", frames
 }
+
+// catchBounded runs f on a goroutine of its own, recovering a panic; hung reports that f has not returned within the bound
+// (the goroutine is then abandoned). The bound is a watchdog far beyond the context deadline f itself works under.
+func catchBounded(bound time.Duration, f func()) (panicText string, hung bool) {
+	ch := make(chan string, 1)
+	go func() { ch <- catch(f) }()
+	select {
+	case p := <-ch:
+		return p, false
+	case <-time.After(bound):
+		return "", true
+	}
+}
